@@ -21,6 +21,7 @@ type histCfg struct {
 	Depth       int
 	TickChoice  bool // after every statement: choose "no tick" / "tick"
 	Reopen      bool // event: clean shutdown (Session.Close) + restart
+	Reselect    bool // event: USE d again (the store is closed and opened again; no recovery runs)
 	Crash       bool // event: crash + recovery (cost 1 against the crash bound)
 	FinalCrash  bool // every fresh history ends with crash + double recovery + check
 	FinalReopen bool // every fresh history ends with clean shutdown + restart + check (pages re-read from disk)
@@ -157,6 +158,9 @@ func histBody(cfgs []histCfg, crashBound int) lib.Body {
 			if cfg.Reopen {
 				extra = append(extra, "reopen")
 			}
+			if cfg.Reselect {
+				extra = append(extra, "reselect")
+			}
 			if cfg.Crash && crashes < crashBound {
 				extra = append(extra, "crash")
 			}
@@ -204,6 +208,13 @@ func histBody(cfgs []histCfg, crashBound int) lib.Body {
 					storage.VerifMarkClosed(rs)
 					w = w.recoverFrom(w.image(), false)
 					c.Tag("reopen")
+				case "reselect":
+					c.Logf("USE d (close + open, no recovery)")
+					if err := w.exec("USE d"); err != nil {
+						w.failErr("use-failed", "USE d", err)
+						return
+					}
+					c.Tag("reselect")
 				case "crash":
 					c.Logf("CRASH")
 					crashes++
